@@ -1,11 +1,11 @@
 (* Wire interface of unit C04_servo (Device/DServo.v against Host/Servo.v).
    case ::= (0 ctor_args (op ...))      ctor_args and ops as in Wire/C19_servoW.v (decoders reused):
             ctor_args = (pin mina maxa minp maxp), each () omitted | (pynum);  op ::= (0 v) write | (1 v) write_us | (2) read | (3) read_us
-   answer   (0 hctor decl (sdev ...) (get ...) (sdev ...) (get ...) hok (range ...) (level ...) decl_ok)
+   answer   (0 hctor decl (sdev ...) (get ...) (sdev ...) (get ...) hok (range ...) decl_ok)
             hctor ::= (0) the host constructor returned | (1 kind) it raised (the host lists are then empty)
             decl  ::= (0) the parser rejects the declaration | (1 (sdev ...)) the setup() calls
             then: device events, device getters, host commands, host getters, no host call raised,
-                  per-op range flags, per-op level flags, declaration guard
+                  per-op range flags, declaration guard
    sdev ::= (0 pin min max) attach | (1 pin z) write | (2 pin z) writeMicroseconds;   get ::= () | (1 (n d)) *)
 From Coq Require Import ZArith QArith List Bool.
 From RV Require Import Base.Wire Base.NumM Host.Servo Device.DMotor Device.DServo Wire.C19_servoW Wire.C04_ledW.
@@ -41,7 +41,6 @@ Definition run (v : wv) : wv :=
                WL (map w_sdev (fst d)); WL (map w_sget (snd d));
                WL (map w_sdev (fst (fst h))); WL (map w_sget (snd (fst h))); wbool (snd h);
                WL (map wbool (match hc with inl h => servo_range_flags h ops' | inr _ => [] end));
-               WL (map wbool (servo_level_flags ops'));
                wbool (decl_ok a)]
       | _, _, _, _, _, _ => wbad
       end
